@@ -98,6 +98,12 @@ def mei_objects(tier):
     yield [(0, b'Company identification'), (1, b'Product code XX'), (2, b'V2.11')]
     yield [(0, b'a'), (1, b''), (2, b'c'), (3, b'http://x'), (0x80, b'\x00\xff{}:\r\n')]
     yield [(i, bytes([i]) * (i % 7)) for i in (0, 1, 2, 3, 4, 5, 6, 0x80, 0x81, 0xFF)]
+    # one object id carried several times (pymodbus keeps the values as a list), empty values included
+    yield [(0x83, b'abc'), (0x83, b'de')]
+    yield [(0x83, b''), (0x83, b'abc')]
+    yield [(0x83, b'abc'), (0x83, b'')]
+    yield [(0x80, b''), (0x80, b''), (0x80, b'x')]
+    yield [(0, b'v'), (0x83, b'a'), (0x83, b'b'), (0x83, b'c')]
     # totals at and around what fits one PDU (246 bytes of objects): 245, 246 fit; 247, 248 do not
     for a in (79, 80, 81, 82):
         yield [(0, b'a' * a), (1, b'b' * 80), (2, b'c' * 80)]
